@@ -303,9 +303,9 @@ pub fn gen_table(rng: &mut Rng, name: &str, others: &[TableDef], profile: Profil
     }
     // loader profile: a composite inline key whose members carry DIFFERENT object-syntax flags
     // (the flag of the whole key is the OR of the members'), on integer columns only
-    let mixed_flags = composite && profile == Profile::Loader && rng.chance(1, 3)
+    let mixed_flags = composite && profile == Profile::Loader && rng.chance(2, 3)
         && t.columns.iter().all(|c| c.r#type.supports_auto_increment());
-    match rng.below(3) {
+    match if mixed_flags { 0 } else { rng.below(3) } {
         0 if mixed_flags => {
             let k = rng.below(pk_names.len());
             for (i, n) in pk_names.iter().enumerate() {
